@@ -415,6 +415,25 @@ func (v *vm) execSketch() bool {
 		v.kprotos[string(t[1])] = p
 		v.ok()
 
+	case "kpscale":
+		// the caller edits the message it was handed: every count in it is multiplied in place
+		v.need(3)
+		p := v.getKP(1)
+		f := v.f(2)
+		p.ZeroCount *= f
+		for _, st := range []*sketchpb.Store{p.PositiveValues, p.NegativeValues} {
+			if st == nil {
+				continue
+			}
+			for i := range st.ContiguousBinCounts {
+				st.ContiguousBinCounts[i] *= f
+			}
+			for k := range st.BinCounts {
+				st.BinCounts[k] *= f
+			}
+		}
+		v.ok()
+
 	case "kpobs":
 		v.need(2)
 		p := v.getKP(1)
